@@ -12,6 +12,10 @@
  */
 #include "parsec/parsec_config.h"
 #include "parsec/class/parsec_object.h"
+/* The real parsec_object.c is compiled into this (instrumented) translation unit: its file-static class_lock must be
+ * a watched region, otherwise the unlock is not a visible write and a thread parked on the lock's WAIT hook would
+ * never be re-enabled by the controlled scheduler. The definitions in the executable take precedence over libparsec's. */
+#include "parsec/class/parsec_object.c"
 #include "cosched.h"
 #include <stdio.h>
 #include <string.h>
@@ -153,7 +157,8 @@ static void run_ctor(int n, int d0, int d1, int d2, int release_too)
     nthr = 0; reset_journals();
     cdepth[0] = d0; cdepth[1] = d1; cdepth[2] = d2; memset(made, 0, sizeof(made));
     reset_classes();
-    for (int d = 1; d <= 4; d++) cs_watch(cls_of[d], sizeof(parsec_class_t), "class");
+    for (int d = 1; d <= 4; d++) if (d == d0 || d == d1 || (n > 2 && d == d2)) cs_watch(cls_of[d], sizeof(parsec_class_t), "class");
+    cs_watch(&class_lock, sizeof(class_lock), "class_lock");
     cs_body_t b[MAXT]; void *args[MAXT] = { (void *)0, (void *)1, (void *)2 };
     for (int t = 0; t < MAXT; t++) b[t] = release_too ? ctor_then_release_body : ctor_body;
     cs_run(n, b, args);
